@@ -63,14 +63,10 @@ class SimpleCookieJar:
                 cookies.append(self.jar.get(domain))
 
         return "; ".join(
-            filter(
-                None,
-                sorted(
-                    [
-                        f"{k}={v.value}"
-                        for cookie in filter(None, cookies)
-                        for k, v in cookie.items()
-                    ]
-                ),
+            f"{k}={v}"
+            for k, v in sorted(
+                (k, v.value)
+                for cookie in filter(None, cookies)
+                for k, v in cookie.items()
             )
         )
